@@ -37,6 +37,9 @@ struct Basic {
   int __cmp__(const Basic &o) const { return id == o.id ? 0 : (id < o.id ? -1 : 1); }   /* assumed C02 contract */
   RCPBasic get_arg1() const { return arg1; }
   RCPBasic get_arg2() const { return arg2; }
+#ifdef GHOST_BASIC_EXTRA
+  GHOST_BASIC_EXTRA       /* unit-specific members, e.g. accept(Visitor &) */
+#endif
 };
 struct Infty {
   RCPBasic _direction;
